@@ -31,8 +31,25 @@ DevRestore == Dev = "StripRestore"
 DevScratch == Dev = "DirtyScratch"
 DevMarks == Dev = "SharedMarks"
 DevInProgress == Dev = "SharedInProgress"
+DevMemo == Dev = "StaleMemo"
+DevError == Dev = "SharedError"
 DevNoMutex == Dev = "NoStepMutex"
 DevEnum == Dev = "EnumEarlyReturn"
+
+\* the kinds a deviation can show on (the deviation runs explore only these)
+DevKinds ==
+    CASE Dev = "AliasDefaults" -> {"objstruct", "objnest"}
+      [] Dev = "LazyUnsync" -> {"units", "units0", "objmap", "objstruct"}
+      [] Dev = "CollideEither" -> {"mapcoll"}
+      [] Dev \in {"StripInPlace", "StripRestore"} -> {"oneof"}
+      [] Dev = "DirtyScratch" -> {"objdep"}
+      [] Dev = "SharedMarks" -> {"chain"}
+      [] Dev = "SharedInProgress" -> {"compat2"}
+      [] Dev = "StaleMemo" -> {"units", "units0"}
+      [] Dev = "SharedError" -> {"disabled"}
+      [] Dev = "NoStepMutex" -> {"steps"}
+      [] Dev = "EnumEarlyReturn" -> {"enum"}
+      [] OTHER -> {}
 
 AllIdle == \A g \in G : pc[g] = "idle"
 
